@@ -107,6 +107,10 @@ pub fn check_value(r: &Report, p: &Pset, origin: &str) -> Option<Vec<u8>> {
         if &q2 != p {
             return Err("base64 round trip differs".into());
         }
+        // the same round trip under environment deviations (short writes / short reads / a writer that fills up)
+        if b.len() <= 4000 {
+            crate::props::c01::environment_deviations(p, &b).map_err(|e| format!("environment: {}", e))?;
+        }
         Ok(b)
     });
     match res {
